@@ -46,35 +46,45 @@ TIERS = {
     "thorough": {"shards": 16, "cases": 36000, "timeout": 7200},
 }
 FLOORS = {
+    # monitor-side reach only (contract evaluations, cases pushed through the real code); sized at <= 1/3 of the quick counters
     "quick": {
-        "programs": 3000,
-        "compared": 10000,
-        "distinct_nontrivial": 500,
-        "eval:fit_yield": 3000,
-        "eval:fit_rowspace": 6000,
-        "eval:fit_rowspace_broadcast_trimmed": 200,
-        "eval:fit_bound": 3000,
-        "eval:fit_os_semantic": 200,
-        "eval:fit_os_syntactic": 50,
-        "eval:fit_mem_evaluated": 300,
-        "eval:matches_differential": 30000,
-        "eval:matches_exact_span": 10000,
-        "eval:matches_exact_nospan": 3000,
-        "eval:ssv_differential": 30000,
-        "direct_matcher_cases": 3000,
-        "pass_schedules_fit_checked": 60,
+        "programs": 10000,
+        "compared": 180000,
+        "distinct_nontrivial": 1800,
+        "eval:fit_yield": 9000,
+        "eval:fit_rowspace": 20000,
+        "eval:fit_rowspace_broadcast_trimmed": 1600,
+        "eval:fit_bound": 17000,
+        "eval:fit_os_semantic": 1300,
+        "eval:fit_os_syntactic": 300,
+        "eval:fit_mem_evaluated": 1600,
+        "eval:fit_chan_evaluated": 400,
+        "eval:matches_differential": 130000,
+        "eval:matches_exact_span": 110000,
+        "eval:matches_exact_nospan": 20000,
+        "eval:matches_broadcast_trimmed": 12000,
+        "eval:ssv_differential": 130000,
+        "direct_matcher_cases": 7500,
+        "pass_schedules_fit_checked": 450,
     },
     "thorough": {
-        "programs": 90000,
-        "compared": 300000,
-        "distinct_nontrivial": 4000,
-        "eval:fit_yield": 90000,
-        "eval:fit_rowspace": 180000,
-        "eval:fit_os_semantic": 6000,
-        "eval:fit_mem_evaluated": 9000,
-        "eval:matches_differential": 900000,
-        "direct_matcher_cases": 90000,
-        "pass_schedules_fit_checked": 1800,
+        "programs": 300000,
+        "compared": 5400000,
+        "distinct_nontrivial": 12000,
+        "eval:fit_yield": 270000,
+        "eval:fit_rowspace": 600000,
+        "eval:fit_rowspace_broadcast_trimmed": 48000,
+        "eval:fit_bound": 510000,
+        "eval:fit_os_semantic": 39000,
+        "eval:fit_os_syntactic": 9000,
+        "eval:fit_mem_evaluated": 48000,
+        "eval:fit_chan_evaluated": 12000,
+        "eval:matches_differential": 3900000,
+        "eval:matches_exact_span": 3300000,
+        "eval:matches_exact_nospan": 600000,
+        "eval:ssv_differential": 3900000,
+        "direct_matcher_cases": 225000,
+        "pass_schedules_fit_checked": 13500,
     },
 }
 
@@ -213,10 +223,24 @@ def gen_cases(rng, i):
     return [G.gen_pass(rng)]
 
 
+MAX_RECORDED_PER_KIND = 3  # per shard; further occurrences are only counted (a broken tree fires thousands of times)
+
+
+def record(res, v, per_kind):
+    k = v["kind"]
+    per_kind[k] = per_kind.get(k, 0) + 1
+    R.bump(res, "monitor_fired:" + k)
+    if per_kind[k] <= MAX_RECORDED_PER_KIND:
+        R.violation(res, v["kind"], v["detail"], v["case"], attribute(v))
+    else:
+        R.bump(res, "violations_counted_not_recorded")
+
+
 def run_shard(seed, shard, n_cases, tier):
     res = R.new_result()
     rng = random.Random(seed)
     CS = setup()
+    per_kind = {}
     for i in range(n_cases):
         for case in gen_cases(rng, i):
             seen_kinds = set()
@@ -224,7 +248,7 @@ def run_shard(seed, shard, n_cases, tier):
                 if v["kind"] in seen_kinds:
                     continue
                 seen_kinds.add(v["kind"])
-                R.violation(res, v["kind"], v["detail"], v["case"], attribute(v))
+                record(res, v, per_kind)
             if shard == 0 and i in (0, 6, 9):
                 R.sample(res, {k: case[k] for k in case if k != "text"} if case["form"] != "pass" else {"form": "pass", "kind": case["kind"], "text": case["text"]})
     for k, v in CS.ST.counters.items():
@@ -235,6 +259,11 @@ def run_shard(seed, shard, n_cases, tier):
 
 
 def replay(case):
+    """Re-run exactly one recorded case against the current tree; one entry per violation kind."""
     res = R.new_result()
-    vs = run_case(case, res)
-    return [{"kind": v["kind"], "detail": v["detail"]} for v in vs]
+    out, seen = [], set()
+    for v in run_case(case, res):
+        if v["kind"] not in seen:
+            seen.add(v["kind"])
+            out.append({"kind": v["kind"], "detail": v["detail"]})
+    return out
